@@ -22,8 +22,10 @@ from harness.hb_util import order_hashes
 
 PROPERTY = 'C04'
 
-NONE, RAISE, DISABLE = 0, 1, 2
-KIND = {NONE: 'none', RAISE: 'raise', DISABLE: 'nested-disable'}
+NONE, RAISE, DISABLE, EMIT = 0, 1, 2, 3
+KIND = {NONE: 'none', RAISE: 'raise', DISABLE: 'nested-disable', EMIT: 'dispatch-only'}
+# fault plans: (kind, name of an event the same callback dispatches at the fault position, or None)
+PLAIN_PLANS = ((NONE, None), (RAISE, None), (DISABLE, None))
 
 
 class Boom(Exception):
@@ -113,7 +115,7 @@ class Tracker:
         self.log = []
         self.fired = False
         self.fidx = None
-        self.kind, self.p = NONE, None
+        self.kind, self.p, self.emit = NONE, None, None
 
     # ---------------------------------------------------------------- model helpers
     def listeners(self, name):
@@ -154,10 +156,45 @@ class Tracker:
             if self.p == i:                         # symbolic position: solver decision
                 self.fired = True
                 self.fidx = i
-                sp.note('    delivery %d (event #%r -> handler %d): %s' % (i, k, h.idx, KIND[self.kind]))
+                sp.note('    delivery %d (event #%r -> handler %d): %s%s' % (
+                    i, k, h.idx, KIND[self.kind], ' + dispatch(%r)' % self.emit if self.emit else ''))
+                if self.kind == DISABLE:
+                    self.d.dispatch_enabled = False
+                if self.emit:
+                    self.dispatch_from_callback(self.emit)
                 if self.kind == RAISE:
                     raise Boom()
-                self.d.dispatch_enabled = False
+
+    def dispatch_from_callback(self, name):
+        """one nested level: the callback at the fault position dispatches a new event itself.  If the public flag
+        reads False at that moment (after its nested disable) the event is deferred behind everything that is still
+        pending; otherwise it is an ordinary immediate delivery, nested in place (judged like C03 does)."""
+        sp = self.sp
+        k = self.new_event(name)
+        if self.d.dispatch_enabled:
+            outer_phase, outer_log = self.phase, self.log
+            self.phase, self.log = 'immediate', []
+            try:
+                self.d.dispatch(name, k)
+            finally:
+                inner, self.phase, self.log = self.log, outer_phase, outer_log
+            exp = sorted(self.listeners(name))
+            sp.check(sorted(h for (_, h, _) in inner) == exp and all(kk == k for (kk, _, _) in inner),
+                     'immediate-delivery', '%s: event #%d dispatched by a callback while enabled reached %r, expected '
+                     'handlers %r' % (self.tag, k, inner, exp))
+            self.got[k].update(exp)
+            sp.cover('callback-dispatch-immediate')
+        else:
+            self.d.dispatch(name, k)
+            if self.pending_after_fault_possible():
+                sp.cover('callback-dispatch-deferred-behind-pending')
+            self.queued(k)
+        sp.note('      callback dispatched %r as event #%d (%s)' % (
+            name, k, 'deferred' if k in self.pending else 'delivered at once'))
+
+    def pending_after_fault_possible(self):
+        kf = self.log[self.fidx][0]
+        return any(k > kf for k in self.pending)
 
     # ---------------------------------------------------------------- program operations
     def set_registered(self, i, on):
@@ -199,13 +236,13 @@ class Tracker:
                  'immediate-delivery', '%s: event #%d dispatched while enabled reached %r, expected handlers %r'
                  % (self.tag, k, self.log, exp))
 
-    def enable_cycle(self, do_enable, kind, p, what):
+    def enable_cycle(self, do_enable, kind, p, what, emit=None):
         """one enabling assignment under a fault plan, then the oracle"""
         sp = self.sp
         self.phase, self.log, self.fired, self.fidx = 'enable', [], False, None
-        self.kind, self.p = kind, p
+        self.kind, self.p, self.emit = kind, p, emit
         self.d.calls, self.d.limit = 0, 4 * self.total + 8
-        sp.note('%s: %s   [fault plan: %s]' % (self.tag, what, KIND[kind]))
+        sp.note('%s: %s   [fault plan: %s%s]' % (self.tag, what, KIND[kind], ' + dispatch(%r)' % emit if emit else ''))
         outcome = 'returned'
         try:
             do_enable()
@@ -247,7 +284,7 @@ class Tracker:
         if outcome == 'boom':
             sp.check(self.fired and self.kind == RAISE, 'enable-raises', '%s: %s raised without a raising callback'
                      % (tag, what))
-        if self.fired:
+        if self.fired and self.kind in (RAISE, DISABLE):
             kf = log[self.fidx][0]
             late = [k for (k, _, _) in log[self.fidx + 1:] if k != kf]
             sp.check(not late, 'released-after-fault',
@@ -302,10 +339,10 @@ class Tracker:
     cycle_no = 0
 
 
-def draw_plan(sp, label, maxd, kinds):
-    kind = kinds[sp.choose(len(kinds), label + '.kind')]
+def draw_plan(sp, label, maxd, plans):
+    kind, emit = plans[sp.choose(len(plans), label + '.plan')]
     p = sp.int(label + '.p', 0, maxd) if kind != NONE else None
-    return kind, p
+    return kind, p, emit
 
 
 BETWEEN = ['re-enable', 'disable', 'disable+dispatch a', 'disable+dispatch b', 'toggle h0', 'toggle h1']
@@ -328,7 +365,7 @@ def between(sp, tr, label, menu):
         sp.cover('registration-change')
 
 
-def h_queue(sp, q=2, cycles=2, names=('a', 'b'), kinds=(NONE, RAISE, DISABLE), menu=tuple(BETWEEN)):
+def h_queue(sp, q=2, cycles=2, names=('a', 'b'), plans=PLAIN_PLANS, menu=tuple(BETWEEN)):
     d = CountingDispatcher()
     tr = Tracker(sp, d, 'd')
     tr.handlers = [HA(tr, 0), HF(tr, 1)]
@@ -354,8 +391,8 @@ def h_queue(sp, q=2, cycles=2, names=('a', 'b'), kinds=(NONE, RAISE, DISABLE), m
             if not (tr.pending or tr.ghost):
                 break
             between(sp, tr, 'between%d' % c, list(menu))
-        kind, p = draw_plan(sp, 'cycle%d' % c, 2 * tr.total, list(kinds))
-        tr.enable_cycle(enable, kind, p, 'dispatch_enabled = True (cycle %d)' % c)
+        kind, p, emit = draw_plan(sp, 'cycle%d' % c, 2 * tr.total, [tuple(x) for x in plans])
+        tr.enable_cycle(enable, kind, p, 'dispatch_enabled = True (cycle %d)' % c, emit)
     # epilogue: whatever is still pending comes out with a clean release, and a further disable/enable
     # pair delivers nothing at all
     tr.cycle_no = cycles
@@ -375,7 +412,7 @@ class WorldHandle(desper.Handle):
         return self.world
 
 
-def h_switch(sp, q=2, kinds=(NONE, RAISE, DISABLE)):
+def h_switch(sp, q=2, plans=PLAIN_PLANS):
     """desper.switch() + SimpleLoop.switch: w1 -> w2 (release under a fault plan) -> back to w1."""
     loop = desper.SimpleLoop()
     trs = []
@@ -438,8 +475,8 @@ def h_switch(sp, q=2, kinds=(NONE, RAISE, DISABLE)):
 
     def enable_w2():
         loop.switch(ex.world_handle, ex.clear_current, ex.clear_next)
-    kind, p = draw_plan(sp, 'w2.release', 2 * t2.total, list(kinds))
-    t2.enable_cycle(enable_w2, kind, p, 'SimpleLoop.switch(handle of w2)')
+    kind, p, emit = draw_plan(sp, 'w2.release', 2 * t2.total, [tuple(x) for x in plans])
+    t2.enable_cycle(enable_w2, kind, p, 'SimpleLoop.switch(handle of w2)', emit)
     if t2.fired:
         def again():
             w2.dispatch_enabled = True
@@ -450,8 +487,8 @@ def h_switch(sp, q=2, kinds=(NONE, RAISE, DISABLE)):
 
     def enable_w1():
         loop.switch(ex2.world_handle, ex2.clear_current, ex2.clear_next)
-    kind, p = draw_plan(sp, 'w1.release', 2 * t1.total, list(kinds))
-    t1.enable_cycle(enable_w1, kind, p, 'SimpleLoop.switch(handle of w1)')
+    kind, p, emit = draw_plan(sp, 'w1.release', 2 * t1.total, [tuple(x) for x in plans])
+    t1.enable_cycle(enable_w1, kind, p, 'SimpleLoop.switch(handle of w1)', emit)
     if n1:
         sp.cover('switch-in-behind-deferred')
 
@@ -471,20 +508,30 @@ HARNESSES = {
                               'released-two-in-order', 'registration-change', 'queued-behind-pending'],
                   required=['raise-fired', 'disable-fired', 'pending-after-fault', 'released-in-later-cycle',
                             'released-two-in-order', 'registration-change', 'no-listener-at-dispatch', 'released',
-                            'fault-inside-multi-handler-event', 'queued-behind-pending']),
+                            'fault-inside-multi-handler-event', 'queued-behind-pending']),  # = QUEUE_REQ
     'switch': dict(fn=h_switch,
                    nontrivial=['raise-fired', 'disable-fired', 'pending-after-fault', 'switch-in-behind-deferred'],
                    required=['raise-fired', 'disable-fired', 'pending-after-fault', 'released',
                              'switch-in-behind-deferred', 'released-in-later-cycle']),
 }
 
+NESTED_Q = PLAIN_PLANS + ((DISABLE, 'a'), (DISABLE, 'b'))
+NESTED_T = NESTED_Q + ((RAISE, 'a'), (EMIT, 'a'), (EMIT, 'b'))
+QUEUE_REQ = ['raise-fired', 'disable-fired', 'pending-after-fault', 'released-in-later-cycle',
+             'released-two-in-order', 'registration-change', 'no-listener-at-dispatch', 'released',
+             'fault-inside-multi-handler-event', 'queued-behind-pending']
+
 TIERS = {
     'quick': [
         ('queue', dict(q=3, cycles=2)),
+        ('queue', dict(q=2, cycles=2, plans=NESTED_Q),
+         {'required': QUEUE_REQ + ['callback-dispatch-deferred-behind-pending']}),
         ('switch', dict(q=1)),
     ],
     'thorough': [
         ('queue', dict(q=3, cycles=3)),
+        ('queue', dict(q=3, cycles=2, plans=NESTED_T),
+         {'required': QUEUE_REQ + ['callback-dispatch-deferred-behind-pending', 'callback-dispatch-immediate']}),
         ('switch', dict(q=2)),
     ],
 }
@@ -506,8 +553,11 @@ BOUNDS = {
     'quick': 'queue: 1-3 events over names a,b dispatched while disabled; 2 handlers (one listens to a, one to a and b); '
              '2 faulty enable cycles + clean release + empty release; fault kind none/raise/nested disable at '
              'symbolic position p in [0, 2*events]; 6 program actions between cycles; '
-             'switch: w1->w2->w1 through desper.switch + SimpleLoop.switch, <=1 extra event on w2, <=1 on w1',
-    'thorough': 'queue: as quick with 3 faulty cycles (up to 5 events in total); switch: <=2 extra events on w2',
+             'nested level: 1-2 events, 2 cycles, the callback that disables dispatching at position p also dispatches '
+             'a or b (deferred behind everything still pending); switch: w1->w2->w1 through desper.switch + SimpleLoop.switch, <=1 extra event on w2, <=1 on w1',
+    'thorough': 'queue: as quick with 3 faulty cycles (up to 5 events in total); nested level: 1-3 events, 2 cycles, '
+                'the callback at the fault position additionally dispatches a or b after a nested disable, before '
+                'raising, or without any fault (immediate nested delivery); switch: <=2 extra events on w2',
 }
 ASSUMPTIONS = [
     'the gate works per event: the remaining handlers of the event that is being delivered when a callback '
@@ -522,9 +572,13 @@ ASSUMPTIONS = [
     'events are only dispatched by the program while the public flag reads False (dispatching while '
     'enabled with events pending behind an exception is outside the statement), except on_switch_out',
     'registrations change between, not inside, enabling assignments (inside is C03)',
+    'an event dispatched by a callback during a release is deferred iff the public flag reads False at that moment '
+    '(then it is the newest event: it comes out after every older undelivered one); while the flag reads True it is '
+    'an ordinary immediate delivery to the registered listeners, nested in place, and never delivered again',
     'the dispatcher subclass only counts dispatch() calls and refuses the call above the bound',
 ]
-OUTSIDE = ['callbacks that dispatch new events or re-enable dispatching while a release is running',
+OUTSIDE = ['callbacks that re-enable dispatching while a release is running; more than one event dispatched from '
+           'inside callbacks of one release, or from callbacks other than the one at the fault position',
            'more than 3 deferred events / 3 faulty cycles', 'clear_current / clear_next switches (C13)',
            'threads']
 
